@@ -360,6 +360,9 @@ func (env *specEnv) lookupIdent(name string) (sval, bool) {
 			for _, ins := range b.Instrs {
 				if d, ok := ins.(*ssa.DebugRef); ok && !d.IsAddr {
 					if id, ok := d.Expr.(*ast.Ident); ok && id.Name == name {
+						if o := d.Object(); o != nil && o.Pkg() != nil && o.Parent() == o.Pkg().Scope() {
+							continue // package-level object, resolved below
+						}
 						c := vc.freshAlways("callee."+name, vc.sortOf(d.X.Type()))
 						v := sval{t: c, typ: d.X.Type()}
 						env.atFresh["local:"+name] = v
@@ -651,6 +654,10 @@ func (env *specEnv) unify(a, b sval) (Term, Term) {
 			at = fmt.Sprintf("(to_real %s)", at)
 		} else if as == "Real" && bs == "Int" {
 			bt = fmt.Sprintf("(to_real %s)", bt)
+		} else if as == "Iface" && bs != "Iface" {
+			bt = env.eng.makeIface(bt, b.typ)
+		} else if bs == "Iface" && as != "Iface" {
+			at = env.eng.makeIface(at, a.typ)
 		} else if as != bs {
 			env.fail("sort mismatch: %s (%s) vs %s (%s)", a.typ, as, b.typ, bs)
 		}
@@ -1214,6 +1221,27 @@ func (env *specEnv) evalCall(c *ECall) sval {
 		if env.pkg != nil {
 			if fo, ok := env.pkg.Scope().Lookup(id.Name).(*types.Func); ok {
 				return env.callGo(fo, nil, c.Args)
+			}
+		}
+		// conversion to a type of the same representation: string(uid), MyInt(x)
+		if len(c.Args) == 1 {
+			var to types.Type
+			if tn, ok := types.Universe.Lookup(id.Name).(*types.TypeName); ok {
+				to = tn.Type()
+			} else if env.pkg != nil {
+				if tn, ok := env.pkg.Scope().Lookup(id.Name).(*types.TypeName); ok {
+					to = tn.Type()
+				}
+			}
+			if to != nil {
+				x := env.eval(c.Args[0])
+				if isUntyped(x.typ) {
+					return sval{t: env.coerce(x, to), typ: to}
+				}
+				if vc.sortOf(x.typ) == vc.sortOf(to) {
+					return sval{t: env.rv(x), typ: to}
+				}
+				env.fail("conversion %s(%s) changes representation", id.Name, x.typ)
 			}
 		}
 		env.fail("unknown spec function %s", id.Name)
